@@ -299,8 +299,18 @@ pub fn any_zone_key_line() -> impl Strategy<Value = GenLine> {
     })
 }
 
+/// a connective directly after a number (`255 in hex`, `20 as usd`): whatever such a line means (`in` after a number is
+/// also the inch), the letter case of the connective must not change it
+pub fn connective_after_number_line() -> impl Strategy<Value = GenLine> {
+    use crate::lines::{NumLit, Tok};
+    (0u32..100_000, prop::sample::select(vec!["in", "to", "as", "into", "at", "of", "on", "off"]), prop::sample::select(vec!["hex", "binary", "octal", "decimal", "date", "usd", "try", "EST", "cm", "mb", "seconds", "unix", "10%", "5"])).prop_map(|(n, conn, target)| {
+        let t = Tok { pre: target.to_string(), num: None, post: String::new(), class: Class::Other, space: 1 };
+        GenLine::simple(Line::new(vec![Tok::num(NumLit::new(n as f64)), Tok::word(conn, Class::Conn), t]), "C16")
+    })
+}
+
 pub fn case_strategy() -> impl Strategy<Value = Case> {
-    (prop_oneof![12 => any_line().boxed(), 1 => any_zone_key_line().boxed()], rewrite_strategy()).prop_map(|(g, rw)| Case { g, rw })
+    (prop_oneof![12 => any_line().boxed(), 1 => any_zone_key_line().boxed(), 1 => connective_after_number_line().boxed()], rewrite_strategy()).prop_map(|(g, rw)| Case { g, rw })
 }
 
 pub fn empty_strategy() -> impl Strategy<Value = Empty> {
@@ -320,7 +330,7 @@ pub fn regressions() -> Vec<Case> {
 }
 
 pub fn run(ctx: &Ctx) {
-    ctx.rule("base lines (token lists) from the generators of C02, C03, C05, C06, C09-C14; rewritings: 0-5 extra blanks (U+0020) in every gap between two tokens and at both ends, an appended '# comment' (after a blank or glued to the last token) drawn from printable Unicode and from the smartcalc vocabulary (numbers, '=', operators, currency / zone / month words of both languages, atoms, fields, another '#'), letter-case patterns (upper, lower, capitalised, per-letter) on currency codes and aliases (also inside money literals), month names, zone names, connectives and variable names (definition and use cased independently); the blank run between the amount (with magnitude suffix) and the currency word or sign INSIDE a money literal is widened by 1-6 blanks as well; oracle (metamorphic, exact): the AST value of every line of the rewritten text equals that of the base text under the same configuration; blank-only and comment-only lines give an empty slot; non-trivial = the base line evaluates and the rewriting inserted a blank between two tokens, changed a keyword's case or appended a comment containing a vocabulary word");
+    ctx.rule("base lines (token lists) from the generators of C02, C03, C05, C06, C09-C14, plus lines with a connective directly after a number (255 in hex, 20 as usd); rewritings: 0-5 extra blanks (U+0020) in every gap between two tokens and at both ends, an appended '# comment' (after a blank or glued to the last token) drawn from printable Unicode and from the smartcalc vocabulary (numbers, '=', operators, currency / zone / month words of both languages, atoms, fields, another '#'), letter-case patterns (upper, lower, capitalised, per-letter) on currency codes and aliases (also inside money literals), month names, zone names, connectives and variable names (definition and use cased independently); the blank run between the amount (with magnitude suffix) and the currency word or sign INSIDE a money literal is widened by 1-6 blanks as well; oracle (metamorphic, exact): the AST value of every line of the rewritten text equals that of the base text under the same configuration; blank-only and comment-only lines give an empty slot; non-trivial = the base line evaluates and the rewriting inserted a blank between two tokens, changed a keyword's case or appended a comment containing a vocabulary word");
     ctx.assume("nothing is inserted inside a literal token (3:35 pm, GMT+5:30, 6%, 1,5k, $10 are single tokens); the case of unit names, duration words, base names and today/tomorrow/yesterday is not varied (not among the statement's classes)");
     ctx.run_table(&Noise, "regressions", regressions(), false);
     ctx.run_generated(&Noise, ctx.tier.pick(100_000, 1_000_000), case_strategy);
